@@ -199,7 +199,7 @@ func getFloatToFormattedStringFunction() schema.CallableFunction {
 			nil,
 			nil,
 			regexp.MustCompile(`^(?:-?(?:0[xX])?[0-9a-fA-F]+(?:\.[0-9a-fA-F]*)?(?:[pPeE][-+]\d+)?|NaN|[-+]Inf)$`)),
-		false,
+		true,
 		schema.NewDisplayValue(
 			schema.PointerTo("floatToFormattedString"),
 			schema.PointerTo(
@@ -213,8 +213,16 @@ func getFloatToFormattedStringFunction() schema.CallableFunction {
 			),
 			nil,
 		),
-		func(f float64, fmt string, precision int64) string {
-			return strconv.FormatFloat(f, fmt[0], int(precision), 64)
+		func(f float64, format string, precision int64) (string, error) {
+			// The pattern of the format parameter is not enforced for values that are only known at
+			// run time, so an empty or unknown format must be refused here instead of indexing into it.
+			if len(format) != 1 || !strings.Contains("beEfgGxX", format) {
+				return "", fmt.Errorf(
+					"invalid format specifier %q for floatToFormattedString; expected one of b, e, E, f, g, G, x, X",
+					format,
+				)
+			}
+			return strconv.FormatFloat(f, format[0], int(precision), 64), nil
 		},
 	)
 	if err != nil {
